@@ -358,3 +358,43 @@ func (l Layout) Audit(requireClosure bool) []string {
 	sort.Strings(probs)
 	return probs
 }
+
+// AuditManifestFiles checks every digest-named file that is a manifest (listed in the index
+// or not): all of its non-foreign children must be present. Returns problems.
+func (l Layout) AuditManifestFiles() []string {
+	var probs []string
+	files, _ := l.DigestFiles()
+	for d, p := range files {
+		b, err := os.ReadFile(p)
+		if err != nil || len(b) == 0 || b[0] != '{' {
+			continue
+		}
+		var probe struct {
+			SchemaVersion int             `json:"schemaVersion"`
+			MediaType     string          `json:"mediaType"`
+			Manifests     json.RawMessage `json:"manifests"`
+			Layers        json.RawMessage `json:"layers"`
+			FSLayers      json.RawMessage `json:"fsLayers"`
+		}
+		if json.Unmarshal(b, &probe) != nil || probe.SchemaVersion == 0 {
+			continue
+		}
+		if !(IsManifestMT(probe.MediaType) || (probe.MediaType == "" && (probe.Manifests != nil || probe.Layers != nil || probe.FSLayers != nil))) {
+			continue
+		}
+		m, err := Parse(b, probe.MediaType)
+		if err != nil {
+			continue
+		}
+		for _, c := range m.Children() {
+			if c.Foreign {
+				continue
+			}
+			if _, ok := l.Blob(c.Desc.Digest); !ok {
+				probs = append(probs, fmt.Sprintf("manifest file %s is present but its child %s is not", short(d), c.Desc.Digest))
+			}
+		}
+	}
+	sort.Strings(probs)
+	return probs
+}
